@@ -95,6 +95,8 @@ def gen_formulate(rng, slot: int, fault_mode: bool) -> dict:
         elif r < 0.22:
             line = int(10 ** rng.uniform(0, 4.4)) if rng.random() < 0.5 else rng.randrange(1, 22000)
             op["fault"] = {"kind": "interrupt", "line": line}
+        elif r < 0.28:
+            op["fault"] = {"kind": "nested", "k": rng.choice([1, 1, 2, 3, 5]), "inner": rng.randrange(3)}
     return op
 
 
@@ -165,7 +167,7 @@ def generate(seed_: int, run: int, reactions: list[str], wild_hash_seeds: bool =
                 ops.append(gen_config_op(rng, slot, slots[slot], dyn, sel_range))
             elif r < 0.92:
                 op = gen_formulate(rng, slot, fault_mode)
-                if (op.get("fault") or {}).get("kind") == "probe_raise" and rng.random() < 0.85:
+                if (op.get("fault") or {}).get("kind") in ("probe_raise", "nested") and rng.random() < 0.85:
                     # a fault without workload tests nothing: make sure a probe is attached somewhere
                     ops.append({"op": "assign", "b": slot, "dyn": rng.choice(["probeA", "probeB"]),
                                 "sel": {"kind": "name", "i": rng.randrange(sel_range), "n": 0}})
@@ -321,7 +323,8 @@ class Context:
 
 
 def stats_of(workload: dict, out: dict) -> dict:
-    faults = {"probe_raise": [0, 0], "interrupt": [0, 0], "evict": [0, 0], "failed_formulate": [0, 0]}
+    faults = {"probe_raise": [0, 0], "interrupt": [0, 0], "evict": [0, 0], "failed_formulate": [0, 0],
+              "nested_formulate": [0, 0]}
     keys = set()
     keys_by_cfg: dict[str, set] = {}
     formulates = compared = exceptions = repeats = after_failure = 0
@@ -455,7 +458,8 @@ def replay(doc: dict, path: str) -> int:
 
 
 def coverage(records: list[dict], extras: list[dict], options: dict) -> dict:
-    faults = {"probe_raise": [0, 0], "interrupt": [0, 0], "evict": [0, 0], "failed_formulate": [0, 0]}
+    faults = {"probe_raise": [0, 0], "interrupt": [0, 0], "evict": [0, 0], "failed_formulate": [0, 0],
+              "nested_formulate": [0, 0]}
     keys, sigs, nontrivial, touched = set(), set(), set(), set()
     sites: dict[str, int] = {}
     tot = {"ops": 0, "formulates": 0, "compared": 0, "legit_exceptions": 0, "repeats": 0,
